@@ -138,7 +138,12 @@ def check_config(cf, col):
                          "%s rejected by the validator: %s: %s" % (tc.name, type(v.error).__name__, v.error.explain().strip().splitlines()[0][:200]))
                 continue
             if not v.pictures:
-                col.fail("no-pictures:%s" % gname, rec, "%s decodes to no pictures" % tc.name)
+                # e.g. signal_range for a starved budget yields a header-only stream: conformant, nothing to compare.
+                # Only the generators whose documentation promises pictures are required to contain some.
+                col.count("no_pictures:%s" % gname)
+                if gname in MID_GREY or gname in SAME_AS_SPRITE:
+                    col.fail("no-pictures:%s" % gname, rec, "%s decodes to no pictures" % tc.name)
+                col.case(key=(G.config_key(cf), tc.name), nontrivial=False, labels=())
                 continue
             bad_vp = next((i for i, (_, vp, pcm) in enumerate(v.pictures) if vp != want_vp or pcm != cf["picture_coding_mode"]), None)
             if bad_vp is not None:
